@@ -55,7 +55,7 @@ use std::time::{Duration, Instant};
 pub const META: PropMeta = PropMeta {
     id: "C18",
     level: "exploration",
-    rule: "case = (embedding Top|Comp, child kind Fd|Timer, start From<T>|Default, op list over {Fire(child's next event returns Continue|Reregister|Disable|Remove; in Comp the parent may remove()/replace() right after the child fired), FireSibling(parent may remove()/replace() when the sibling fires), FireOld(ping replaced/removed children), remove()+update, replace(new)+update, map(), enable, disable, update, dispatch}) with the documented protocol built in (remove/replace from outside are followed by update(token), or take effect at the next enable when the parent is disabled; enable/disable alternate; no update on a disabled parent). non-trivial: the executed history contains a child-requested Disable or Remove that was actually delivered, or a replace() on a non-empty wrapper, followed IN A LATER STEP by at least one more parent register/reregister/unregister call. distinct: fingerprint of (embedding, kind, start, executed ops) after dropping ops the discipline turned into no-ops; enumerated part: distinct by construction",
+    rule: "case = (embedding Top|Comp, child kind Fd|Timer, start From<T>|Default, op list over {Fire(child's next event returns Continue|Reregister|Disable|Remove; in Comp the parent may remove()/replace() right after the child fired), FireSibling(parent may remove()/replace() when the sibling fires), FireOld(ping replaced/removed children), remove()+update, replace(new)+update, fill+update (replace(new) when the wrapper holds something, `*t = new.into()` when is_none(); also as a parent action), map(), enable, disable, update, dispatch}) with the documented protocol built in (remove/replace from outside are followed by update(token), or take effect at the next enable when the parent is disabled; enable/disable alternate; no update on a disabled parent). non-trivial: the executed history contains a child-requested Disable or Remove that was actually delivered, or a replace() on a non-empty wrapper, followed IN A LATER STEP by at least one more parent register/reregister/unregister call. fd children may all be Generic sources over ONE shared eventfd, alternately level and edge triggered (kernel entry = the current child's). distinct: fingerprint of (embedding, kind, start, executed ops) after dropping ops the discipline turned into no-ops; enumerated part: distinct by construction",
     assumptions: &[
         "the instrumented child is the only holder of its fd / timer, so the kernel table and the timer heap can only change through calls the child observes (table re-read only after steps with such calls)",
         "/proc/self/fdinfo/<epfd> lists the registered fds",
